@@ -57,6 +57,12 @@ func runC01(tier string, seed uint64, rep *Report) {
 	expect(rep, "def inside let binds the let scope only", Call("do", Call("def", S("x"), 1), Call("let", V(S("y"), 0), Call("def", S("x"), 2)), S("x")), val(1), "tmpl")
 	expect(rep, "def inside an empty-binding let binds the let scope only", Call("do", Call("def", S("x"), 1), Call("let", V(), Call("def", S("x"), 2)), S("x")), val(1), "tmpl")
 	expect(rep, "closure captures its defining scope", Call("let", V(S("k"), Call("let", V(S("c"), 7), Call("fn", V(), S("c")))), Call("let", V(S("c"), 8), Call("k"))), val(7), "tmpl")
+	expect(rep, "an inner let shadows (does not overwrite) a name a closure captured", Call("let", V(S("a"), 1, S("f"), Call("fn", V(), S("a"))), Call("let", V(S("a"), 2), Call("list", S("a"), Call("f")))), val(L(2, 1)), "tmpl")
+	expect(rep, "an inner let in a function body shadows the parameter a closure captured", L(Call("fn", V(S("p")), Call("let", V(S("g"), Call("fn", V(), S("p"))), Call("do", 0, Call("let", V(S("p"), 2), Call("list", S("p"), Call("g")))))), 1), val(L(2, 1)), "tmpl")
+	expect(rep, "a collection literal that is not the last form of a body evaluates its elements", Call("do", V(Call("trace!", 1), Call("trace!", 2)), Call("trace!", 3)), val(3, 1, 2, 3), "tmpl")
+	expect(rep, "a map literal that is not the last form of a body evaluates its values", L(Call("fn", V(), types.HashMap{Val: map[string]types.MalType{Kw("k"): Call("trace!", 1)}}, 2)), val(2, 1), "tmpl")
+	expect(rep, "def inside a call without parameters binds in that call's scope only", Call("do", Call("def", S("x"), 1), L(Call("fn", V(), Call("def", S("x"), 2))), S("x")), val(1), "tmpl")
+	expect(rep, "def inside a call binds in that call's scope only", Call("let", V(S("x"), 1), L(Call("fn", V(S("p")), Call("def", S("x"), 2)), 0), S("x")), val(1), "tmpl")
 	for _, c := range []types.MalType{0, "", L(S("list")), V(), Kw("k"), true} {
 		expect(rep, "only nil and false are falsy", Call("if", c, 1, 2), val(1), "tmpl")
 	}
